@@ -1072,7 +1072,6 @@ fn case_enum(bytes: &[u8], ctx: &mut Ctx) -> CaseResult {
         }
     }
     ctx.add_inner(c.calls);
-    push_n(ctx, "enum:trees", 1);
     push_n(ctx, "enum:tree-hashes-to-an-honest-subset-root", c.matched_trees);
     push_n(ctx, "enum:root-match:identical-to-honest-proof", c.identical);
     push_n(ctx, "enum:root-match-nonidentical:REACHED-LOOKUP:verdict-ok", c.nonid_ok);
@@ -1080,7 +1079,8 @@ fn case_enum(bytes: &[u8], ctx: &mut Ctx) -> CaseResult {
     push_n(ctx, "enum:root-match-nonidentical:stopped-by-leaf-position-audit", c.nonid_audit);
     push_n(ctx, "enum:root-match-nonidentical:rejected-otherwise", c.nonid_other);
     push_n(ctx, "enum:info:verdict-although-model-root-differs", c.verdict_on_mismatch);
-    ctx.label(format!("enum:space:{}:blocks", sp.def.name));
+    let per = sp.tab[sp.def.depth - 1].len();
+    ctx.label(format!("enum:space:{}({}-trees):blocks", sp.def.name, nsym + per * per));
     if c.nonid_ok + c.nonid_trunc + c.nonid_audit > 0 {
         ctx.nontrivial(((si as u64) << 32) | block as u64);
     }
